@@ -126,8 +126,6 @@ M = {
     "grpc-cache-keeps-finished-in-unfinished-set": ("optuna/storages/_grpc/client.py",
         "        study.unfinished_trial_ids.discard(trial._trial_id)", "        pass", ["C08"]),
     # ---- C09 -------------------------------------------------------------------------------
-    "nsga-unfix-parent-ids": ("optuna/samplers/_ga/_base.py",
-        "                [trial.number for trial in parent_population],", "                [trial._trial_id for trial in parent_population],", ["C09"]),
     "hyperband-bracket-from-trial-id": ("optuna/pruners/_hyperband.py",
         "trial.number", "trial._trial_id", ["C09"]),
     "copy-study-drops-system-attrs": ("optuna/study/study.py",
